@@ -253,6 +253,7 @@ type Machine struct {
 	trackWrites   bool
 	sharedWrites  []string
 	orderOn       bool
+	orderUsed     bool
 	useInt        bool
 	big           bigTable
 	res           *PathResult
@@ -372,6 +373,7 @@ func (m *Machine) resetPath(prefix []int) {
 	m.trackWrites = false
 	m.sharedWrites = nil
 	m.orderOn = false
+	m.orderUsed = false
 	m.useInt = false
 	m.epoch = 1
 	m.depth = 0
